@@ -240,7 +240,7 @@ func ruleC11(c *Ctx) {
 	c.RequireCallers("whocalls", ss, map[string]string{"(*protocol.Chain).reorganizeChain": "only entry"})
 	tr := c.Func(pProto, "(*Chain).tryReorganize")
 	if tr != nil {
-		c.RequireErrProp("errprop", tr, false, "(*protocol.Chain).GetHeaderByHash")
+		c.RequireErrProp("errprop", tr, false, "(*protocol.Chain).GetHeaderByHash | (protocol/state.Store).GetBlockHeader")
 		c.RequireCall("mustpass", c.ScopeWhen(tr, "best hash differs", "call:(*protocol/bc/types.BlockHeader).Hash != param#1"), true, "(*protocol.Chain).reorganizeChain")
 	}
 	pb := c.Func(pProto, "(*Chain).processBlock")
